@@ -27,7 +27,7 @@ Qed.
 Theorem reframe v t s a f c data : in_range v t s a f c data ->
   frame 0 0 (packet v t s a f c data) [] = Some [packet v t s a f c data].
 Proof.
-  intro HR. pose proof (frame_bytes_exact 0 [([], packet v t s a f c data)]) as H.
+  intro HR. pose proof (frame_bytes_exact TRIM 0 [([], packet v t s a f c data)]) as H. fold frame in H.
   unfold encode in H. cbn [map concat fst snd app] in H. rewrite app_nil_r in H. apply H.
   constructor; [|constructor]. split; [reflexivity|]. now apply packet_is_ccsds.
 Qed.
